@@ -108,7 +108,7 @@ pub async fn main() -> Result<(), Box<dyn std::error::Error>> {
                 // If we have not found the end yet, we are not going to
                 if bytes_read >= buf.len() {
                     tracing::warn!("Metrics connection request too long");
-                    continue;
+                    continue 'accept;
                 }
             }
 
